@@ -33,6 +33,9 @@ type World struct {
 	Runaway  string
 	sleeps   int
 	sentBase int
+	// CancelAtNextSleep: the caller's context ends when the library next enters a
+	// back-off wait (set by environment answers)
+	CancelAtNextSleep bool
 }
 
 // transmitted reads the library's own count of datagrams written to sockets
@@ -201,7 +204,13 @@ func newWorld(cfg ref.Config, ch *env.Chooser, clock *env.Clock) *World {
 	if clock != nil {
 		clock.Cancel = w.Cancel
 	}
-	backoff.VerifSleep = w.T.Sleep
+	backoff.VerifSleep = func(ctx context.Context, d time.Duration) bool {
+		if w.CancelAtNextSleep {
+			w.CancelAtNextSleep = false
+			w.Cancel()
+		}
+		return w.T.Sleep(ctx, d)
+	}
 	backoff.VerifNow = nil
 	w.Conn = bmc.NewV2SessionlessTransportVerif(w.T, time.Hour, &backoff.ZeroBackOff{})
 	env.InstallRand(1)
